@@ -23,6 +23,7 @@ func genSize(t *rapid.T, label string) int64 {
 }
 
 var longGapsQuick int
+var bulkGapQuick int
 
 // LongOutages: outages of 35 s / 62 s between carriers are generated (C01 only: C05 and C18 claim
 // continuity only for gaps below the server's one-minute retention).
@@ -111,6 +112,17 @@ func GenSession(t *rapid.T, label uint64, maxFaults int) Session {
 		longGapsQuick++
 		s.UpSize, s.DownSize = 150000, 150000
 		s.Carriers = []Carrier{{Mode: "close", CutUpAfter: int64(rapid.IntRange(3000, 60000).Draw(t, "longgapcut"))}, {DialDelayMs: 62000, Preamble: GenPreamble(t)}}
+		return s
+	}
+	if maxFaults > 0 && (!vstat.Thorough() && vstat.Shard() == 1 && bulkGapQuick == 0 || vstat.Thorough() && rapid.IntRange(0, 24).Draw(t, "bulkgap") == 0) {
+		// scenario family "gap under load": a multi-MiB download in steady state (the window full of
+		// outstanding packets), the carrier cut in the middle, the next one a few seconds later - far below the
+		// one-minute retention. Quick tier: exactly one per run.
+		bulkGapQuick++
+		s.UpSize, s.DownSize = 1000, int64(rapid.SampledFrom([]int{3 << 20, 5 << 20}).Draw(t, "bulkdown"))
+		s.UpChunk, s.DownChunk = nil, nil
+		s.Carriers = []Carrier{{Mode: rapid.SampledFrom([]string{"close", "reset"}).Draw(t, "bulkmode"), CutDownAfter: int64(rapid.IntRange(1<<20, 2<<20).Draw(t, "bulkcut"))},
+			{DialDelayMs: rapid.SampledFrom([]int{1500, 3000}).Draw(t, "bulkdelay"), Preamble: GenPreamble(t)}}
 		return s
 	}
 	nf := rapid.IntRange(0, maxFaults).Draw(t, "nfaults")
